@@ -650,7 +650,7 @@ def t_taper_loop(eng):
         else:
             e_.oblige(n_ + 'running-point-advances-to-the-end-of-the-piece', num_eq(got[('local', 'p')], b))
     carried = [('yield',), ('local', 'p'), ('local', 'state'), ('local', 'inc1')] + ([('local', 'bound')] if which else [])
-    spec = LoopSpec(carried, None, P + '.' + q + '.emit', [], check=check, inv=inv, exits=('raise:AssertionError',))
+    spec = LoopSpec(carried, None, P + '.' + q + '.emit', [], check=check, inv=inv, exits=('raise:AssertionError', 'raise:ZeroDivisionError'))
     spec.on_entry = on_entry
     eng.loop_specs[(q, loops_of(f).index(loop))] = spec
     eng.frames.append({'fref': eng.fref(q), 'env': env, 'qual': q, 'node': f})
@@ -663,7 +663,10 @@ def t_taper_loop(eng):
             for st in f.body[k0:]:
                 eng.exec_stmt(st, env)
         except PyRaise as ex:
-            eng.oblige(n_ + 'only-the-limit-assertions-may-stop-the-loop', ex.cls == 'AssertionError')
+            # the slice starts after the preamble, so the smallest increment is arbitrary here: the limit assertions of
+            # taper1 and a zero remaining count in taper2 (excluded by the preamble's choice) may stop the loop
+            eng.oblige(n_ + 'only-the-limit-assertions-or-an-exhausted-remainder-may-stop-the-loop',
+                       ex.cls in ('AssertionError', 'ZeroDivisionError'))
             return
     finally:
         ys = eng.yield_stack.pop()
